@@ -174,8 +174,8 @@ func indent(s, p string) string {
 }
 
 func trimModel(s string) string {
-	if len(s) > 6000 {
-		return s[:6000] + "\n..."
+	if len(s) > 1500 {
+		return s[:1500] + "\n..."
 	}
 	return s
 }
